@@ -41,6 +41,17 @@ Streams (S3, model vs implementation)
                      (own bytes, reference bytes incl. the ones with container-typed unknown fields).  No fragment: a case the
                      specialised model calls "outside" is compared like any other.  `forwardg` certifies each case inside the
                      hypotheses of `forward_parse` (`cert=`) and re-checks the theorem's conclusion on it (`thm=`)
+  history-omitted-fds / history-marshal-again / history-parse-again   (state-leak round 2026-09-30, STATE_AUDIT G2 / G11)
+                     HISTORIES: several uses inside ONE scenario, nothing rebuilt, the serial counter never touched by the
+                     harness, every step judged.  omitted-fds: constructions of all four classes WITHOUT the `oobFDs`
+                     keyword (bodies with and without 'h', twice in a row, then explicit `[]` / None, mixed classes);
+                     marshal-again: `m._marshal(False)` twice, `_marshal(True)`, a failing re-marshal in between, other
+                     constructions of the same class before and after (driver op `again` = Msg/Again.lean `marshalAgain`,
+                     `same=`: the conclusions of `marshal_again_same` / `marshal_again_new` re-checked on every step);
+                     parse-again: parse(raw, fds1), parse of another message of the same class with fewer fields, re-inspection
+                     of the earlier results, mutation of a result and of its descriptor list, a truncated parse, then
+                     parse(raw, fds2) - own bytes and reference bytes.  The ORACLE is the one below applied to every later
+                     use; a violation's replay input is the whole history up to the failing step
 Oracle (S4, implementation only; nothing from the model) - only what C03's statement says:
   * wf_parse (strict structural parser written from the specification, incl. its header-field type table and required
     fields) accepts rawMessage; type code, flag bits, version, body length word; the serial in the bytes is the object's
@@ -71,7 +82,8 @@ except Exception:                       # pragma: no cover - the local generator
 
 STREAMS = ['build', 'wire-codec', 'construct-malformed', 'parse-own', 'spec-bytes', 'parse-foreign', 'parse-foreign-containers',
            'parse-wrongtype', 'fragment-vs-general', 'remarshal-parsed', 'tables-immutable',
-           'general-build', 'general-parse', 'general-forward']
+           'general-build', 'general-parse', 'general-forward',
+           'history-omitted-fds', 'history-marshal-again', 'history-parse-again']
 THEOREMS = ['marshal_wellformed', 'serial_fresh', 'parse_marshal', 'parse_foreign', 'cannot_construct',
             'constructed_from_arguments', 'parse_foreign_of_constructed',
             'parse_marshal_c01', 'parse_marshal_c01_checked', 'parse_marshal_c01_checked_none', 'parse_marshal_no_body',
@@ -80,7 +92,8 @@ THEOREMS = ['marshal_wellformed', 'serial_fresh', 'parse_marshal', 'parse_foreig
             'construct_general_eq', 'parse_general_eq', 'parse_general_of_ok', 'marshal_wellformed_general',
             'parse_marshal_general', 'parse_foreign_general', 'parse_foreign_containers',
             'remarshal_parse', 'forward_parse', 'remarshal_general_eq', 'forward_drops_field_outside_table',
-            'headerCode_outside_fragment', 'general_result_shape', 'forward_foreign']
+            'headerCode_outside_fragment', 'general_result_shape', 'forward_foreign',
+            'marshal_again_same', 'marshal_again_new', 'shared_descriptor_list_leaks']
 TRUSTED_BASE = [
     'message body bytes: the model takes the bytes marshal.marshal produced as an input (opaque body codec; '
     'C01/C02 own the codec model), and the theorems take the codec round trip as a named hypothesis',
@@ -115,6 +128,33 @@ ARGS = {'call': ['path', 'member', 'interface', 'destination', 'signature'],
         'err': ['error_name', 'reply_serial', 'destination', 'signature', 'sender'],
         'sig': ['path', 'member', 'interface', 'destination', 'signature']}
 DEFAULT_MAX = 2 ** 27
+
+
+# ---------------------------------------------------------------------------------- reporting (exemplar choice)
+# vlib keeps, per key, the SMALLEST input as the exemplar that goes into the replay file.  A leak between uses is often hit
+# by a single-case stream too - by luck, because earlier cases of the same process left something behind - and that single
+# case, replayed alone in a fresh process, reports "property holds" (STATE_AUDIT M6).  A history carries the earlier uses
+# with it and always replays.  So violations are collected here and handed to ctx at the end of run() / replay(): per key,
+# the smallest HISTORY exemplar if a history hit the key (for a stateless defect that is a one-step history), else the
+# smallest single case, as before.
+PENDING = {}
+
+
+def violation(ctx, key, what, inp, observed=None, expected=None):
+    rec = {'what': what, 'inp': inp, 'observed': observed, 'expected': expected, 'size': len(json.dumps(inp, sort_keys=True, default=repr))}
+    slot = PENDING.setdefault(key, {'count': 0, 'history': None, 'single': None})
+    slot['count'] += 1
+    which = 'history' if isinstance(inp, dict) and inp.get('kind') == 'history' else 'single'
+    if slot[which] is None or rec['size'] < slot[which]['size']:
+        slot[which] = rec
+
+
+def flush_violations(ctx):
+    for key, slot in list(PENDING.items()):
+        rec = slot['history'] or slot['single']
+        for _ in range(slot['count']):
+            ctx.violation(key, rec['what'], inp=rec['inp'], observed=rec['observed'], expected=rec['expected'])
+    PENDING.clear()
 
 
 # ---------------------------------------------------------------------------------- canonical forms
@@ -491,6 +531,12 @@ def g_case(rng, marshal, stream='build'):
         x['as'] = opt(0.6)
         x['oob'] = rng.choice([None, None, 0, 0, 0, 2]) if stream == 'build' else rng.choice([None, 0])
     allow_h = cls == 'call' and x['oob'] is not None
+    if stream == 'build':
+        # (state-leak round) the optional argument is really LEFT OUT in half of the calls that give no list, and a few
+        # bodies hold a descriptor although no list is given (any class: TypeError today, the constructor's business)
+        x['kw'] = not (x['oob'] is None and rng.random() < 0.5)
+        if x['oob'] is None and rng.random() < 0.05:
+            allow_h = True
     if stream == 'foreign':
         # what other implementations send: flags on every message type (signals from libdbus carry NO_REPLY_EXPECTED),
         # SENDER on everything a bus has routed, descriptors on any type
@@ -656,11 +702,11 @@ def tables_snapshot(message, cheap=True):
 TABLES = {}
 
 
-def check_tables(ctx, message, inp):
+def check_tables(ctx, message, inp, cheap=None):
     """The model (and the generated Gen/Message.lean) assume that constructing and parsing never change the class
     tables; a change is reported as a broken correspondence obligation with the call after which it was seen."""
     try:
-        snap = tables_snapshot(message, cheap=isinstance(inp, dict) and 'cls' in inp)
+        snap = tables_snapshot(message, cheap=(isinstance(inp, dict) and 'cls' in inp) if cheap is None else cheap)
     except Exception as e:                    # the harness's own reach into internals failed: never a finding
         ctx.note('tables-immutable: class tables could not be read (%s: %s)' % (type(e).__name__, e))
         return
@@ -698,16 +744,18 @@ def real_max(message, x):
 
 
 def construct_real(message, x, poke=True):
-    """Run the constructor; returns (observation dict, message or None, oobFDs list after)."""
+    """Run the constructor; returns (observation dict, message or None, oobFDs list after).  `x['kw']` False (only with
+    `x['oob']` None): the `oobFDs` keyword is not passed at all."""
     K = make_class(message, x['cls'], x['max'])
     body = case_body(x)
     oob = None if x['oob'] is None else [900 + i for i in range(x['oob'])]
+    kw = {} if (oob is None and not x.get('kw', True)) else {'oobFDs': oob}
     if poke:
         set_next(message, x['next'])
     try:
         if x['cls'] == 'call':
             m = K(x['path'], x['member'], interface=x['interface'], destination=x['destination'],
-                  signature=x['signature'], body=body, expectReply=x['er'], autoStart=x['as'], oobFDs=oob)
+                  signature=x['signature'], body=body, expectReply=x['er'], autoStart=x['as'], **kw)
         elif x['cls'] == 'ret':
             m = K(x['reply_serial'], body=body, destination=x['destination'], signature=x['signature'])
         elif x['cls'] == 'err':
@@ -723,6 +771,17 @@ def construct_real(message, x, poke=True):
            'body': hexs(P.raw_parts(m)[2]),
            'ufds': ca(getattr(m, 'unix_fds', None)), 'wf': wf_bit(m.rawMessage, oob)}
     return obs, m, oob
+
+
+def own_fds(x, oob_after):
+    """(descriptor list that accompanies the constructed message x, the count its UNIX_FDS field must announce): the
+    caller's list as marshalling left it; when NO list was given (`oobFDs=None` or the keyword left out) the message's OWN
+    descriptors in body order - whatever such a message is constructed from, it has to carry its own count and indices
+    from 0 (on the unchanged tree a body with a descriptor and no list is not constructible at all)."""
+    if oob_after is not None:
+        return oob_after, (len(oob_after) if (oob_after and x['signature']) else 0)
+    own = expected_fds(x)
+    return (own if own else None), len(own)
 
 
 def wf_bit(raw, fds):
@@ -1002,23 +1061,23 @@ def judge_build(ctx, marshal, message, stream, x, mline):
             key = 'empty-name-constructible' if empty else 'invalid-name-constructible'
             what = ('%s(%s=%r) is constructed although %s rejects the name: the constructor does not validate it'
                     % (CLSNAME[x['cls']], slot, value, VALIDATOR_OF[slot]))
-        ctx.violation(key, what, inp=public(x), observed='constructed, rawMessage=' + obs['raw'][:200],
+        violation(ctx, key, what, inp=public(x), observed='constructed, rawMessage=' + obs['raw'][:200],
                       expected='an exception: the message cannot be constructed')
         return obs, m, oob_after
     if obs['ok'] and x['signature'] is not None and len(x['signature']) > 255:
-        ctx.violation('overlong-signature-constructible', 'a message with a body signature of %d characters is constructed '
+        violation(ctx, 'overlong-signature-constructible', 'a message with a body signature of %d characters is constructed '
                       '(a SIGNATURE holds at most 255)' % len(x['signature']), inp=public(x), observed='constructed',
                       expected='an exception')
         return obs, m, oob_after
     if obs['ok'] and x.get('arity_mismatch'):
-        ctx.violation('wrong-arity-body-constructible',
+        violation(ctx, 'wrong-arity-body-constructible',
                       'a %s with signature %r and %d body values is constructed: the bytes cannot carry the body that was given '
                       '(too few values: body shorter than its signature says; too many: values silently dropped)'
                       % (CLSNAME[x['cls']], x['signature'], len(case_body(x))), inp=public(x),
                       observed='constructed, rawBody=' + obs['body'][:200], expected='MarshallingError')
         return obs, m, oob_after
     if obs['ok'] and x['cls'] == 'call' and x['path'] == '/org/freedesktop/DBus/Local':
-        ctx.violation('reserved-path-constructible', 'a method call on the reserved path /org/freedesktop/DBus/Local is constructed',
+        violation(ctx, 'reserved-path-constructible', 'a method call on the reserved path /org/freedesktop/DBus/Local is constructed',
                       inp=public(x), observed='constructed', expected='MarshallingError')
         return obs, m, oob_after
     # The statement: "a message exceeding the 128 MiB protocol limit cannot be constructed".  The library states that
@@ -1029,24 +1088,24 @@ def judge_build(ctx, marshal, message, stream, x, mline):
     # It is never demanded that a message of exactly the limit IS constructible.
     limit = min(x['max'], DEFAULT_MAX) if limit_honoured(message) else DEFAULT_MAX
     if obs['ok'] and len(m.rawMessage) > limit:
-        ctx.violation('oversize-constructible', 'a message of %d bytes is constructed; the limit of its class is %d'
+        violation(ctx, 'oversize-constructible', 'a message of %d bytes is constructed; the limit of its class is %d'
                       % (len(m.rawMessage), limit), inp=public(x), observed=len(m.rawMessage), expected='MarshallingError')
         return obs, m, oob_after
     if not obs['ok']:
         return obs, m, oob_after
     if not in_domain(x):
         return obs, m, oob_after
-    nfds = len(oob_after) if (oob_after and x['signature']) else 0
-    check_wellformed(ctx, x, obs, m, oob_after, nfds)
+    fds, nfds = own_fds(x, oob_after)
+    check_wellformed(ctx, x, obs, m, fds, nfds)
     return obs, m, oob_after
 
 
-def check_wellformed(ctx, x, obs, m, oob_after, nfds):
+def check_wellformed(ctx, x, obs, m, oob_after, nfds, inp=None):
     raw = m.rawMessage
-    inp = public(x)
+    inp = public(x) if inp is None else inp
 
     def bad(key, what, observed=None, expected=None):
-        ctx.violation(key, what, inp=inp, observed=observed, expected=expected)
+        violation(ctx, key, what, inp=inp, observed=observed, expected=expected)
     has_parts = all(hasattr(m, a) for a in ('rawHeader', 'rawPadding', 'rawBody'))     # rawPadding is not a documented name
     if has_parts and raw != m.rawHeader + m.rawPadding + m.rawBody:
         bad('raw-parts-differ', 'rawMessage != rawHeader + rawPadding + rawBody', obs['raw'][:400])
@@ -1095,7 +1154,7 @@ def check_wellformed(ctx, x, obs, m, oob_after, nfds):
             cv(wf['body_vals']), x_body(x))
 
 
-def check_view(ctx, key, what, x, got_view, got_body, want_view, want_body, extra=None):
+def check_view(ctx, key, what, x, got_view, got_body, want_view, want_body, extra=None, inp=None):
     """parse(...) == x on every observable attribute."""
     g, w = strip_view(got_view), want_view
     if g != w or got_body != want_body:
@@ -1105,10 +1164,11 @@ def check_view(ctx, key, what, x, got_view, got_body, want_view, want_body, extr
         k = key
         if set(diff) <= {'er', 'as', 'of'}:
             k = 'parse-ignores-flags'
-        inp = public(x)
-        if extra:
-            inp = dict(inp, **extra)
-        ctx.violation(k, '%s: differs in %s' % (what, ', '.join(diff)), inp=inp,
+        if inp is None:
+            inp = public(x)
+            if extra:
+                inp = dict(inp, **extra)
+        violation(ctx, k, '%s: differs in %s' % (what, ', '.join(diff)), inp=inp,
                       observed={d: (g.get(d) if d != 'body' else got_body) for d in diff},
                       expected={d: (w.get(d) if d != 'body' else want_body) for d in diff})
 
@@ -1380,6 +1440,7 @@ def run_wire_codec(ctx, marshal, message, cases):
 def run_parse_own(ctx, message, built):
     check_tables(ctx, message, {'after': 'constructions'})
     items = [(x, obs, m, oob) for x, obs, m, oob in built if obs['ok']]
+    items = [(x, obs, m, own_fds(x, oob)[0]) for x, obs, m, oob in items]
     lines = [parse_line(m.rawMessage, oob) for x, obs, m, oob in items]
     out = ctx.model(lines)
     for i, (x, obs, m, oob) in enumerate(items):
@@ -1395,7 +1456,7 @@ def run_parse_own(ctx, message, built):
         if not in_domain(x):
             continue
         if not v['ok']:
-            ctx.violation('parse-own-raises', 'parseMessage raises %s on the bytes txdbus produced' % v['err'],
+            violation(ctx, 'parse-own-raises', 'parseMessage raises %s on the bytes txdbus produced' % v['err'],
                           inp=public(x), observed=v['err'], expected='the message')
             continue
         nfds = len(oob) if (oob and x['signature']) else 0
@@ -1487,7 +1548,7 @@ def run_foreign_cases(ctx, message, cases):
                 ctx.stat('foreign-containers:' + ('via-general-model' if 'via=general' in pout[pos[i]] else 'fragment'))
             gen_bit(ctx, pout[pos[i]], inp)
         if not v['ok']:
-            ctx.violation('parse-foreign-raises', 'parseMessage raises %s on a spec-conformant %s-endian message'
+            violation(ctx, 'parse-foreign-raises', 'parseMessage raises %s on a spec-conformant %s-endian message'
                           % (v['err'], 'big' if big else 'little'), inp=inp, observed=v['err'], expected='the message')
             continue
         got_body = cv(pm.body) if pm.signature else None
@@ -1748,7 +1809,7 @@ def run_serial_sequence(ctx, marshal, message, n):
         ctx.impl_trace()
         if obs['ok']:
             if not (isinstance(m.serial, int) and 1 <= m.serial < 2 ** 32) or m.serial in seen:
-                ctx.violation('serial-not-fresh',
+                violation(ctx, 'serial-not-fresh',
                               'construction number %d of a run (a %s) gets serial %r%s' %
                               (k, CLSNAME[x['cls']], m.serial,
                                ', already given to construction number %d (a %s)' % seen[m.serial] if m.serial in seen else ''),
@@ -1796,7 +1857,7 @@ def run_real_limit(ctx, marshal, message):
             ctx.case('real-limit', sample={'cls': cls, 'string_length': n, 'constructed': ok}, n=1)
             inp = {'kind': 'real-limit', 'cls': cls, 'string_length': n, 'member': member}
             if ok and size > 2 ** 27:
-                ctx.violation('oversize-constructible', 'a %s of %d bytes (2^27 + %d) is constructed'
+                violation(ctx, 'oversize-constructible', 'a %s of %d bytes (2^27 + %d) is constructed'
                               % (CLSNAME[cls], size, size - 2 ** 27), inp=inp, observed=size, expected='MarshallingError')
             if not ok and extra <= 0:
                 ctx.note('a %s of 2^27%+d bytes is refused (%s): not demanded by the statement, recorded only'
@@ -1804,7 +1865,7 @@ def run_real_limit(ctx, marshal, message):
             if ok and size <= 2 ** 27:
                 pm = message.parseMessage(m.rawMessage, [])
                 if pm.body != [s] or pm.serial != m.serial:
-                    ctx.violation('parse-own-differs', 'the %d-byte message does not parse back' % size, inp=inp)
+                    violation(ctx, 'parse-own-differs', 'the %d-byte message does not parse back' % size, inp=inp)
                 del pm
             del s, m
     # observed, NOT flagged (review 2, 1.1): a body array of more than 2^26 bytes inside a message below 2^27 constructs and
@@ -1823,15 +1884,440 @@ def run_real_limit(ctx, marshal, message):
                      'word %d exceeds 2^26: outside C03\'s definition of well-formed, recorded only'
                      % (len(m.rawMessage), wf['body_arrays_over_limit'][0]))
         if wf['serial'] != m.serial or wf['body'] != P.raw_parts(m)[2] or wf['body_len'] != len(P.raw_parts(m)[2]):
-            ctx.violation('not-well-formed', 'the 71 MB method return is not header ++ padding ++ body with the right length word',
+            violation(ctx, 'not-well-formed', 'the 71 MB method return is not header ++ padding ++ body with the right length word',
                           inp={'kind': 'real-limit', 'cls': 'ret', 'body': 'as 2x34MiB'})
         pm = message.parseMessage(m.rawMessage, [])
         if pm.body != [big] or pm.serial != m.serial:
-            ctx.violation('parse-own-differs', 'the 71 MB method return does not parse back',
+            violation(ctx, 'parse-own-differs', 'the 71 MB method return does not parse back',
                           inp={'kind': 'real-limit', 'cls': 'ret', 'body': 'as 2x34MiB'})
         del pm, m, big
     except Exception as e:
         ctx.note('the 71 MB array body: %s (recorded only)' % exc_name(e))
+
+
+# ---------------------------------------------------------------------------------- histories (state-leak round 2026-09-30)
+# Several uses inside ONE scenario (STATE_AUDIT.md G2, G11): nothing is rebuilt between the steps, the serial counter is read
+# once (for the model) and never written, every step is judged by the oracle of the single-use streams, and the replay
+# input of a violation is the history up to the failing step.  A history is JSON:
+#   {'kind': 'history', 'family': 'omitted-fds' | 'marshal-again' | 'parse-again', 'steps': [step, ...]}
+#   {'op': 'build', 'x': <case>}                       constructor call (x['kw'] False: the oobFDs keyword is left out)
+#   {'op': 'again', 'ref': b, 'new': bool, 'fds': 'omit' | 'none' | 'fresh'}
+#                                                      object of the b-th build step: `_marshal(newSerial=new[, oobFDs=None | []])`
+#   {'op': 'parse', 'own': b | 'foreign': {...}, 'fdbase': n}    parseMessage(bytes, [n, n+1, ...]) - one descriptor per 'h'
+#   {'op': 'trunc', 'own': b | 'foreign': {...}, 'cut': k}       parseMessage of the first k bytes (outcome ignored)
+#   {'op': 'recheck', 'ref': s}                        the object step s returned is inspected again (only before any mutation)
+#   {'op': 'mutate', 'ref': s}                         the object step s returned, its body and its descriptor list are changed
+HIST_STREAM = {'omitted-fds': 'history-omitted-fds', 'marshal-again': 'history-marshal-again',
+               'parse-again': 'history-parse-again'}
+H_TYPES = ['h', 'h', 'ah', '(hs)', '(ih)', 'a(hh)', 'a{sh}']
+
+
+def subst_fds(sig, vals, fds):
+    """The abstract body `vals` with its k-th descriptor replaced by fds[k] (what a parse with that list must return)."""
+    k = [0]
+
+    def walk(t, v):
+        c = t[0]
+        if c == 'h':
+            k[0] += 1
+            return fds[k[0] - 1]
+        if c == 'a':
+            et = t[1:]
+            if et[0] == '{':
+                kt, vt = R.split_sig(et[1:-1])
+                return [(walk(kt, a), walk(vt, b)) for a, b in v]
+            return [walk(et, e) for e in v]
+        if c == '(':
+            return [walk(ft, fv) for ft, fv in zip(R.split_sig(t[1:-1]), v)]
+        if c == 'v':
+            return R.Var(v.sig, walk(v.sig, v.val))
+        return v
+    return [walk(t, v) for t, v in zip(R.split_sig(sig), vals)]
+
+
+def x_body_with(x, fds):
+    if not x['signature']:
+        return None
+    return cv(R.erase_all(x['signature'], subst_fds(x['signature'], case_abs(x), fds)))
+
+
+def h_case(rng, marshal, cls=None, body='random', oob=None, kw=True, fdbase=0, like=None):
+    """One in-domain constructor case for a history.  body: 'h' (at least one descriptor), 'plain' (a signature without
+    'h'), 'none' (no signature), 'random'.  `like`: keep the header arguments of that case (same class, same names)."""
+    if like is not None:
+        x = dict(like)
+    else:
+        while True:
+            x = g_case(rng, marshal, stream='history')
+            if (cls is None or x['cls'] == cls) and in_domain(x) and len(x.get('body_line') or '') < 2000:
+                break
+    x['oob'], x['kw'], x['next'], x['max'] = oob, bool(kw), None, DEFAULT_MAX
+    if body == 'random' and like is None and not (x['signature'] and 'h' in x['signature']):
+        pass
+    elif body == 'none':
+        x.update(signature=None, body_line=None, abs=[])
+    elif body == 'hbad':          # a descriptor, then a value its type refuses: marshalling fails AFTER the descriptor was collected
+        x.update(signature='hy', body_line=vc.to_line([fdbase + 1, 300]), abs=[fdbase + 1, 300])
+    else:
+        want_h = body == 'h' or (body == 'random' and rng.random() < 0.5)
+        types = [g_type(rng, 0, False) for _ in range(rng.choice([0, 1, 1, 2]))]
+        if want_h:
+            types.insert(rng.randrange(len(types) + 1), rng.choice(H_TYPES))
+        elif not types:
+            types = ['i']
+        fds = [fdbase]
+        while True:
+            items = [g_val(rng, t, marshal, fds) for t in types]
+            if not want_h or fds[0] > fdbase:          # an empty `ah` holds no descriptor: draw again
+                break
+        sig = ''.join(types)
+        x.update(signature=sig, body_line=vc.to_line([p for p, _ in items]), abs=abs_list_to_json(sig, [a for _, a in items]))
+    if x['cls'] != 'call':
+        x['oob'], x['kw'] = None, False                # only MethodCallMessage has the parameter
+    return x
+
+
+def fewer_fields(x):
+    """The same class and required arguments with every optional header argument left out."""
+    y = dict(x)
+    y.update(destination=None, sender=None, signature=None, body_line=None, abs=[])
+    if y['cls'] == 'call':
+        y['interface'] = None
+    return y
+
+
+def g_hist_omitted(rng, marshal, k):
+    """G2: constructions without the `oobFDs` keyword.  k < 4: the ladder of the audit for class k (descriptor twice,
+    then no descriptor, no signature, and for calls an explicit `[]` / None); else a random mix over all classes."""
+    steps = []
+    if k < 4:
+        cls = CLASSES[k]
+        a = h_case(rng, marshal, cls, 'h', None, False, fdbase=10)
+        plan = [('h', None, False), ('h', None, False), ('plain', None, False), ('none', None, False)]
+        if cls == 'call':
+            plan += [('h', 0, True), ('h', None, False), ('plain', 0, True), ('h', None, True), ('plain', None, False)]
+        for i, (body, oob, kw) in enumerate(plan):
+            steps.append({'op': 'build', 'x': h_case(rng, marshal, cls, body, oob, kw, fdbase=10 * (i + 1), like=a)})
+    else:
+        for i in range(rng.choice([4, 5, 6, 8])):
+            cls = rng.choice(CLASSES)
+            oob, kw = rng.choice([(None, False), (None, False), (None, True), (0, True)])
+            steps.append({'op': 'build', 'x': h_case(rng, marshal, cls, rng.choice(['h', 'h', 'plain', 'plain', 'none', 'random', 'hbad']),
+                                                     oob, kw, fdbase=10 * (i + 1))})
+    return {'kind': 'history', 'family': 'omitted-fds', 'steps': steps}
+
+
+def g_hist_again(rng, marshal, k):
+    """G11a: one object marshalled again and again, other constructions of its class before, between and after."""
+    cls = CLASSES[k % 4] if k < 8 else rng.choice(CLASSES)
+    with_h = cls == 'call' and (k < 4 or rng.random() < 0.5)
+    a = h_case(rng, marshal, cls, 'h' if with_h else rng.choice(['plain', 'none', 'random']),
+               0 if with_h else rng.choice([None, None, 0]), with_h or rng.random() < 0.5, fdbase=20)
+    if not with_h and a['signature'] and 'h' in a['signature'] and a['oob'] is None:
+        a = h_case(rng, marshal, cls, 'plain', None, a['kw'], like=a)
+    good = 'fresh' if a['oob'] == 0 else rng.choice(['omit', 'none'])
+    steps = [{'op': 'build', 'x': a}]
+    if k >= 4 and rng.random() < 0.5:
+        steps.insert(0, {'op': 'build', 'x': h_case(rng, marshal, cls, 'random', 0 if cls == 'call' else None, True, fdbase=10)})
+    ref = len(steps) - 1
+    seq = [(False, good), (False, good), (True, good), (False, good)]
+    if with_h:
+        seq.insert(rng.choice([1, 2, 3]), (False, rng.choice(['omit', 'none'])))      # fails in the body codec; object unchanged
+    if k >= 4:
+        seq += [(rng.random() < 0.5, good) for _ in range(rng.choice([0, 1, 3]))]
+    for i, (new, fds) in enumerate(seq):
+        steps.append({'op': 'again', 'ref': ref, 'new': new, 'fds': fds})
+        if i == 1 or (k >= 4 and rng.random() < 0.3):
+            steps.append({'op': 'build', 'x': h_case(rng, marshal, cls, rng.choice(['plain', 'none', 'h']),
+                                                     0 if cls == 'call' else None, True, fdbase=30 + 10 * i, like=a)})
+    steps.append({'op': 'build', 'x': fewer_fields(a)})
+    steps.append({'op': 'parse', 'own': ref, 'fdbase': 300})
+    return {'kind': 'history', 'family': 'marshal-again', 'steps': steps}
+
+
+def g_foreign_src(rng, marshal, like=None, fewer=False):
+    """A reference message as a JSON source: the fields of `foreign_input`."""
+    if like is None:
+        while True:
+            x = g_case(rng, marshal, stream='foreign')
+            if in_domain(x) and len(x.get('body_line') or '') < 2000:
+                break
+        x['next'], x['flag4'] = None, rng.random() < 0.25
+    else:
+        x = {k: like[k] for k in like if k not in ('kind', 'big', 'serial', 'fields')}
+        if fewer:
+            x.update(destination=None, sender=None, signature=None, body_line=None, abs=[])
+            if x['cls'] == 'call':
+                x['interface'] = None
+    fields = foreign_fields(x, len(expected_fds(x)), rng, g_foreign_extra(rng, True))
+    return foreign_input(x, rng.random() < 0.5, rng.choice([1, 255, 2573, 2 ** 32 - 1, rng.randint(1, 2 ** 32 - 1)]), fields)
+
+
+def g_hist_parse(rng, marshal, k):
+    """G11b: one byte string parsed twice with different descriptor lists; in between another message of the same class
+    with fewer fields, re-inspection of the earlier results, mutation of a result, a truncated parse."""
+    steps = []
+    if k % 2 == 0:
+        cls = CLASSES[(k // 2) % 4]
+        a = h_case(rng, marshal, cls, rng.choice(['h', 'random']) if cls == 'call' else rng.choice(['plain', 'plain', 'none']),
+                   0 if cls == 'call' else None, True, fdbase=40)
+        steps += [{'op': 'build', 'x': a}, {'op': 'build', 'x': fewer_fields(a)}]
+        A, B = {'own': 0}, {'own': 1}
+    else:
+        fa = g_foreign_src(rng, marshal)
+        A, B = {'foreign': fa}, {'foreign': g_foreign_src(rng, marshal, like=fa, fewer=True)}
+    n0 = len(steps)
+    steps += [dict(A, op='parse', fdbase=100), dict(B, op='parse', fdbase=150), {'op': 'recheck', 'ref': n0},
+              dict(A, op='parse', fdbase=200), {'op': 'recheck', 'ref': n0}, {'op': 'recheck', 'ref': n0 + 1},
+              {'op': 'recheck', 'ref': n0 + 3},
+              {'op': 'mutate', 'ref': n0}, dict(A, op='trunc', cut=rng.choice([0, 1, 8, 15, 16, 17, 24, 40, 10 ** 6]) ),
+              dict(A, op='parse', fdbase=250), {'op': 'mutate', 'ref': n0 + 9}, {'op': 'mutate', 'ref': n0 + 1},
+              dict(B, op='parse', fdbase=350), dict(A, op='parse', fdbase=400)]
+    if k % 2 == 0 and k >= 8:
+        steps.append({'op': 'build', 'x': h_case(rng, marshal, None, 'random', None, False, fdbase=50, like=steps[0]['x'])})
+        steps.append({'op': 'parse', 'own': 2, 'fdbase': 500})
+    return {'kind': 'history', 'family': 'parse-again', 'steps': steps}
+
+
+def again_kwargs(message, new, fds):
+    """Keyword arguments of the re-marshal call, or None when the entry point / its descriptor parameter is not there."""
+    fc = forwarding_api(message)
+    if not fc:
+        return None
+    kw = {fc[1]: bool(new)}
+    if fds != 'omit':
+        name = P.fds_param(message)
+        if name is None:
+            return None
+        kw[name] = [] if fds == 'fresh' else None
+    return fc[0], kw
+
+
+def mutate_parsed(pm, fds):
+    """What a careless receiver does with a message it was handed - none of it may show in a LATER parse."""
+    for a, v in (('sender', 'zz.mutated'), ('destination', 'zz.mutated'), ('path', '/zz/mutated'), ('member', 'Mutated'),
+                 ('interface', 'zz.mutated'), ('error_name', 'zz.Mutated'), ('reply_serial', 4242), ('unix_fds', 77),
+                 ('signature', 'tt'), ('serial', 0), ('expectReply', not pm.expectReply), ('autoStart', not pm.autoStart)):
+        try:
+            setattr(pm, a, v)
+        except Exception:
+            pass
+    b = getattr(pm, 'body', None)
+    try:
+        if isinstance(b, list):
+            for e in b:
+                if isinstance(e, list):
+                    e.append('zz')
+                elif isinstance(e, dict):
+                    e['zz'] = 'zz'
+            b.append('zz-mutated')
+            b.reverse()
+        else:
+            pm.body = ['zz-mutated']
+    except Exception:
+        pass
+    if isinstance(fds, list):
+        fds.reverse()
+        fds.append(999)
+
+
+def hist_src(step, objs, builds):
+    """(x, raw bytes, serial, big-endian?, 'own' | 'foreign') of the message a parse / trunc step names, or None."""
+    if 'own' in step:
+        m = objs[step['own']] if step['own'] < len(objs) else None
+        if m is None:
+            return None
+        return builds[step['own']], bytes(m.rawMessage), m.serial, False, 'own'
+    f = step['foreign']
+    x = {k: f[k] for k in f if k not in ('kind', 'big', 'serial', 'fields')}
+    flags = (0 if x['er'] else 1) | (0 if x['as'] else 2) | (4 if x.get('flag4') else 0)
+    raw, _ = R.ref_message(MTYPE[x['cls']], flags, f['serial'], fields_from_json(f['fields']), x['signature'], case_abs(x), f['big'])
+    return x, raw, f['serial'], f['big'], 'foreign'
+
+
+def run_history(ctx, marshal, message, hist):
+    """Execute one history on the real code, judge every step (S4), and return what the model is to be asked:
+    [(step number, driver line or None, implementation observation, kind)]."""
+    stream = HIST_STREAM[hist['family']]
+    steps = hist['steps']
+    start = get_next(message)                 # read, never written
+    objs, builds, alive = [], [], []          # per build step: message object (or None), its case, still usable
+    returned = {}                             # step number -> (parsed object, x, serial, nfds, fds values, src kind, fds list)
+    seen = {}                                 # serial -> step number that got it
+    mutated = False
+    trace = []
+
+    def inp_upto(i):
+        return {'kind': 'history', 'family': hist['family'], 'steps': steps[:i + 1]}
+
+    def judge_object(i, x, obs, m, fds_after, what, new_serial, old_serial=None):
+        fds, nfds = own_fds(x, fds_after)
+        check_wellformed(ctx, x, obs, m, fds, nfds, inp=inp_upto(i))
+        v, pm = parse_real(message, m.rawMessage, None if fds is None else list(fds))
+        if not v['ok']:
+            violation(ctx, 'parse-own-raises', 'step %d of a history (%s): parseMessage raises %s on the bytes txdbus produced'
+                          % (i, what, v['err']), inp=inp_upto(i), observed=v['err'], expected='the message')
+        else:
+            check_view(ctx, 'parse-own-differs', 'step %d of a history: parseMessage(rawMessage) after %s' % (i, what), x, v,
+                       cv(pm.body) if pm.signature else None, x_view(x, m.serial, nfds), x_body(x), inp=inp_upto(i))
+        if new_serial and m.serial != old_serial:
+            if not (isinstance(m.serial, int) and 1 <= m.serial < 2 ** 32) or m.serial in seen:
+                violation(ctx, 'serial-not-fresh', 'step %d of a history (%s) gets serial %r%s'
+                              % (i, what, m.serial, ', already given at step %d' % seen[m.serial] if m.serial in seen else ''),
+                              inp=inp_upto(i), observed=m.serial, expected='a serial not used before in this history, >= 1, < 2^32')
+            else:
+                seen[m.serial] = i
+
+    for i, st in enumerate(steps):
+        op = st['op']
+        ctx.case(stream, sample=None)
+        if op == 'build':
+            x = st['x']
+            pre = premarshal(marshal, x)
+            obs, m, oob_after = construct_real(message, x, poke=False)
+            ctx.impl_trace()
+            objs.append(m)
+            builds.append(x)
+            alive.append(m is not None)
+            ctx.stat('%s:build:%s:%s:%s:%s' % (stream, x['cls'], 'kw' if x.get('kw', True) else 'omitted',
+                                                'h' if (x['signature'] and 'h' in x['signature']) else 'no-h',
+                                                'ok' if obs['ok'] else obs['err']))
+            trace.append((i, build_line(dict(x, next='='), pre, real_max(message, x)), obs, 'build'))
+            if obs['ok']:
+                judge_object(i, x, obs, m, oob_after, 'the construction of a %s' % CLSNAME[x['cls']], True)
+        elif op == 'again':
+            b = st['ref']
+            call = again_kwargs(message, st['new'], st['fds'])
+            x = builds[b] if b < len(builds) else None
+            if call is None or x is None:
+                ctx.stat(stream + ':again:not-exercised')
+                continue
+            pre = premarshal(marshal, dict(x, oob=0 if st['fds'] == 'fresh' else None))
+            line = 'again %d %s %s %s' % (b, tf(st['new']), '0' if st['fds'] == 'fresh' else 'N', pre)
+            if not alive[b]:
+                trace.append((i, line, None, 'dead'))
+                continue
+            m = objs[b]
+            old = m.serial
+            try:
+                getattr(m, call[0])(**call[1])
+                ok, err = True, None
+            except Exception as e:
+                ok, err = False, exc_name(e)
+            ctx.impl_trace()
+            fds_after = call[1].get(P.fds_param(message)) if st['fds'] != 'omit' else None
+            if ok:
+                obs = {'ok': True, 'serial': m.serial, 'next': get_next(message), 'raw': hexs(m.rawMessage),
+                       'hdr': hexs(P.raw_parts(m)[0]), 'pad': hexs(P.raw_parts(m)[1]), 'body': hexs(P.raw_parts(m)[2]),
+                       'ufds': ca(getattr(m, 'unix_fds', None)),
+                       'wf': wf_bit(m.rawMessage, own_fds(x, fds_after)[0])}
+                judge_object(i, x, obs, m, fds_after, '_marshal(newSerial=%s) on the object of step %d' % (st['new'], b),
+                             st['new'], old)
+            else:
+                obs = {'ok': False, 'err': err, 'next': get_next(message)}
+                if not pre.startswith('err:'):       # not a failure of the body codec: the object may be half updated
+                    alive[b] = False
+            ctx.stat('%s:again:new=%s:fds=%s:%s' % (stream, st['new'], st['fds'], 'ok' if ok else err))
+            trace.append((i, line, obs, 'again'))
+        elif op in ('parse', 'trunc'):
+            src = hist_src(st, objs, builds) if ('own' not in st or (st['own'] < len(alive) and alive[st['own']])) else None
+            if src is None:
+                continue
+            x, raw, serial, big, kind = src
+            own = expected_fds(x)
+            if op == 'trunc':
+                try:
+                    message.parseMessage(raw[:st['cut']], [st.get('fdbase', 600) + j for j in range(len(own))])
+                except Exception:
+                    pass
+                ctx.impl_trace()
+                continue
+            fds = [st['fdbase'] + j for j in range(len(own))]
+            given = list(fds)
+            v, pm = parse_real(message, raw, given)
+            ctx.impl_trace()
+            ctx.stat('%s:parse:%s:%s:%s' % (stream, kind, x['cls'], 'ok' if v['ok'] else v['err']))
+            trace.append((i, parse_line(raw, fds), v, 'parse'))
+            if not v['ok']:
+                violation(ctx, 'parse-%s-raises' % kind, 'step %d of a history: parseMessage raises %s on %s'
+                              % (i, v['err'], 'the bytes txdbus produced' if kind == 'own' else
+                                 'a spec-conformant %s-endian message' % ('big' if big else 'little')),
+                              inp=inp_upto(i), observed=v['err'], expected='the message')
+                continue
+            returned[i] = (pm, x, serial, len(own), fds, kind, given)
+            check_view(ctx, 'parse-%s-differs' % kind,
+                       'step %d of a history: parseMessage of %s with the descriptor list %r'
+                       % (i, 'own bytes' if kind == 'own' else 'reference bytes', fds), x, v,
+                       cv(pm.body) if pm.signature else None, x_view(x, serial, len(own)), x_body_with(x, fds), inp=inp_upto(i))
+        elif op == 'recheck':
+            r = returned.get(st['ref'])
+            if r is None or mutated:
+                continue
+            pm, x, serial, nfds, fds, kind, _ = r
+            check_view(ctx, 'parse-%s-differs' % kind,
+                       'step %d of a history: the object parseMessage returned at step %d, inspected again after later parses'
+                       % (i, st['ref']), x, view_real(pm), cv(pm.body) if pm.signature else None,
+                       x_view(x, serial, nfds), x_body_with(x, fds), inp=inp_upto(i))
+        elif op == 'mutate':
+            r = returned.pop(st['ref'], None)
+            if r is not None:
+                mutated = True
+                mutate_parsed(r[0], r[6])
+    check_tables(ctx, message, inp_upto(len(steps) - 1), cheap=True)
+    return start, trace
+
+
+def run_histories(ctx, marshal, message, hists):
+    """The histories on the real code (S4 inside), then ONE driver batch for all of them (S3)."""
+    lines, where = [], []
+    for h, hist in enumerate(hists):
+        start, trace = run_history(ctx, marshal, message, hist)
+        ctx.case(HIST_STREAM[hist['family']], sample={'family': hist['family'], 'ops': [s['op'] for s in hist['steps']]}, n=0)
+        if start is None:
+            continue
+        lines.append('hist %d' % start)
+        where.append(None)
+        for i, line, obs, kind in trace:
+            lines.append(line)
+            where.append((hist, i, obs, kind))
+    out = ctx.model(lines)
+    if out is None:
+        return
+    for ln, w in zip(out, where):
+        if w is None:
+            continue
+        hist, i, obs, kind = w
+        stream = HIST_STREAM[hist['family']]
+        inp = {'kind': 'history', 'family': hist['family'], 'steps': hist['steps'][:i + 1]}
+        if kind == 'dead':
+            continue
+        if kind == 'parse':
+            mv = view_from_model(ln)
+            if mv != obs:
+                ctx.disagree(stream, inp, mv, obs, detail='step %d: parseMessage' % i)
+            continue
+        mo = build_obs_from_model(ln)
+        if mo != obs:
+            ctx.disagree(stream, inp, mo, obs, detail='step %d: %s (the model runs the whole history on ONE counter that is '
+                         'given to it once, at the start)' % (i, kind))
+        if kind == 'again':
+            same = kv(ln).get('same', '-')
+            ctx.stat('%s:theorem-conclusion-%s' % (stream, {'1': 'rechecked', '-': 'not-applicable'}.get(same, 'FAILED')))
+            if same == '0':
+                ctx.disagree(stream, inp, 'same=0', 'same=1',
+                             detail='the evaluated model contradicts marshal_again_same / marshal_again_new at step %d' % i)
+        else:
+            gen_bit(ctx, ln, inp)
+
+
+def gen_histories(ctx, marshal, n):
+    rng = ctx.rng
+    hs = []
+    for k in range(n):
+        hs.append(g_hist_omitted(rng, marshal, k))
+        hs.append(g_hist_again(rng, marshal, k))
+        hs.append(g_hist_parse(rng, marshal, k))
+    return hs
 
 
 # ---------------------------------------------------------------------------------- corpus / replay
@@ -1857,6 +2343,9 @@ def replay_case(ctx, marshal, message, data):
         run_general_forward(ctx, message, [(inp, raw, fds)])
         return
     kind = data.get('kind', 'build')
+    if kind == 'history':
+        run_histories(ctx, marshal, message, [data])
+        return
     if kind == 'foreign':
         x = {k: data[k] for k in data if k not in ('kind', 'big', 'serial', 'fields')}
         fields = fields_from_json(data['fields'])
@@ -1891,10 +2380,12 @@ def replay_case(ctx, marshal, message, data):
 def replay(ctx, data):
     from txdbus import marshal, message
     saved = get_next(message)
+    PENDING.clear()
     try:
         replay_case(ctx, marshal, message, data['input'] if 'input' in data else data)
         flush_general_parse(ctx, message)
     finally:
+        flush_violations(ctx)
         set_next(message, saved)
 
 
@@ -1902,6 +2393,7 @@ def run(ctx):
     from txdbus import marshal, message
     saved = get_next(message)
     TABLES.pop(id(message), None)
+    PENDING.clear()
     check_tables(ctx, message, None)
     ctx.case('tables-immutable', sample=None, n=1)
     try:
@@ -1933,9 +2425,11 @@ def run(ctx):
         run_wrongtype(ctx, marshal, message, ctx.scale(quick=1200, thorough=40000))
         for _ in range(ctx.scale(quick=6, thorough=40)):
             run_serial_sequence(ctx, marshal, message, 150)
+        run_histories(ctx, marshal, message, gen_histories(ctx, marshal, ctx.scale(quick=60, thorough=1500)))
         if ctx.tier == 'thorough' and not ctx.widen:
             run_real_limit(ctx, marshal, message)
         flush_general_parse(ctx, message)
     finally:
         del GENERAL_PARSE[:]
+        flush_violations(ctx)
         set_next(message, saved)
